@@ -519,6 +519,9 @@ func createMtree(tw *tar.Writer, entries []MtreeEntry, mtime time.Time) error {
 	buf := &bytes.Buffer{}
 	gw := pgzip.NewWriter(buf)
 	defer gw.Close()
+	// pgzip writes the zero time as a bogus date (year 2042) into the gzip
+	// header, time 0 means that no timestamp is available
+	gw.ModTime = time.Unix(0, 0)
 
 	_, err := io.WriteString(gw, "#mtree\n")
 	if err != nil {
